@@ -221,6 +221,15 @@ func (n *node) dumpContracts(ln *ledgerNames) string {
 		}
 		seen[key] = true
 		raw := n.db.Get(database.CalcContractKey(h))
+		// Store.GetContract is what validation sees (Chain.ProgramConverter): it must answer exactly
+		// what the persisted row says, also right after a reorganisation removed or re-created the row
+		code, gerr := n.store.GetContract(h)
+		switch {
+		case len(raw) >= 32 && (gerr != nil || string(code) != string(raw[32:])):
+			n.contractMismatch = fmt.Sprintf("contract %s: the row holds code %x but Store.GetContract answers %x (%v)", key, raw[32:], code, gerr)
+		case len(raw) < 32 && gerr == nil:
+			n.contractMismatch = fmt.Sprintf("contract %s: no row, but Store.GetContract answers code %x", key, code)
+		}
 		if len(raw) < 32 {
 			continue
 		}
